@@ -19,7 +19,7 @@ func init() {
 		Run:      runC16,
 		Explanation: "Decides structural necessary conditions of 'generated tokens are unique, untaken, sorted; the spread-minimising generator is reproducible': (R1) effect analysis of the call cone of SpreadMinimizingTokenGenerator.GenerateTokens: no clock, randomness, environment, goroutine, select, map iteration, package-level mutable state or FMA-fusable float expression, and the only receiver fields read are the instance and zone indexes; " +
 			"(R2) rejection sampling in every TokenGenerator implementation: the taken set is a map filled from every element of the taken-tokens argument, a candidate is appended only if absent from that map (random generator: and is then recorded), results are returned sorted (sort dominates the return, or an index-ordered filter of a sorted list); (R4) token accounting in the placement loop: on every path of one iteration the token counter is incremented exactly as often as a token is appended; " +
-			"(R3) partitions obtain tokens from the spread-minimising generator with their id, zone 0, nothing taken. NOT decided: the spread bound, congruence modulo zone count, cross-instance disjointness (arithmetic of the placement algorithm).",
+			"(R3) partitions obtain tokens from the spread-minimising generator with their id, zone 0, nothing taken. (R5) the zone index is searched in a list that is sorted in place on every path where it is not sorted, so it does not depend on the configured zone order. NOT decided: the spread bound, congruence modulo zone count, cross-instance disjointness (arithmetic of the placement algorithm).",
 	}
 }
 
@@ -133,11 +133,13 @@ func runC16(c *core.Ctx) {
 	c.Rule("R2", "rejection sampling against the complete taken set; sorted result", 6)
 	c.Rule("R3", "partition tokens come from the spread-minimising generator (id, zone 0, nothing taken)", 1)
 	c.Rule("R4", "token counter and appended tokens agree on every path of the placement loop", 1)
+	c.Rule("R5", "the zone index is the zone's position in the sorted zone list, whatever order the zones are configured in", 1)
 	pkg := c.Prog.Pkg("ring")
 	if pkg == nil {
 		c.Miss("R1", "pkg=ring", "not loaded")
 		return
 	}
+	c16ZoneIndex(c, pkg)
 	root := an.FindFunc(pkg, "SpreadMinimizingTokenGenerator.GenerateTokens")
 	if root == nil {
 		c.Miss("R1", "func=SpreadMinimizingTokenGenerator.GenerateTokens", "not found")
@@ -451,4 +453,63 @@ func pkgVarAssigned(pkg *packages.Package, v *types.Var) bool {
 		})
 	}
 	return assigned
+}
+
+// c16ZoneIndex (R5): the list handed to findZoneID is sorted whenever slices.IsSorted says it is not —
+// by a sort call on that very variable — and the index found is what the generator is built with.
+func c16ZoneIndex(c *core.Ctx, pkg *packages.Package) {
+	fn := an.FindFunc(pkg, "NewSpreadMinimizingTokenGenerator")
+	if fn == nil {
+		c.Miss("R5", "func=NewSpreadMinimizingTokenGenerator", "not found")
+		return
+	}
+	c.Analysed(fn.String())
+	g := fn.Graph()
+	finds := fn.CallsTo(false, "ring", "findZoneID")
+	if len(finds) != 1 || len(finds[0].Expr.Args) != 2 {
+		c.Undec("R5", "func=NewSpreadMinimizingTokenGenerator", fn.Pos(), "expected one findZoneID(zone, zones) call")
+		return
+	}
+	zobj := fn.ObjOf(finds[0].Expr.Args[1])
+	if zobj == nil {
+		c.Undec("R5", "func=NewSpreadMinimizingTokenGenerator", finds[0].Expr.Pos(), "the zone list given to findZoneID is not a variable: "+fn.Canon(finds[0].Expr.Args[1]))
+		return
+	}
+	var sorts []an.Loc
+	checked := false
+	for _, call := range fn.Calls(false) {
+		if (call.Is("sort", "Strings") || call.Is("slices", "Sort")) && len(call.Expr.Args) == 1 && fn.ObjOf(call.Expr.Args[0]) == zobj {
+			sorts = append(sorts, g.Locate(call.Expr))
+		}
+		if call.Is("slices", "IsSorted") && len(call.Expr.Args) == 1 && fn.ObjOf(call.Expr.Args[0]) == zobj {
+			checked = true
+		}
+	}
+	if len(sorts) != 1 {
+		c.Viol("R5", "func=NewSpreadMinimizingTokenGenerator", finds[0].Expr.Pos(), fmt.Sprintf("the list searched by findZoneID (%s) is sorted by %d sort calls on that variable: the zone index would depend on the order the zones are configured in", zobj.Name(), len(sorts)))
+		return
+	}
+	// every path that reaches findZoneID with IsSorted=false passed through the sort
+	bd := &an.Binder{Fn: fn, Re: []an.ReRole{an.RE(`^slices\.IsSorted\(.*\)$`, "ISSORTED")}, Bool: map[string]string{"ISSORTED": "sorted"}, Row: an.Row{"sorted": "F"}}
+	ex := g.Exec(g.EntryLoc(), []an.Loc{sorts[0], g.Locate(finds[0].Expr)}, bd.Leaf, an.ExecOpts{Record: true})
+	ok := true
+	for _, tr := range ex.Traces {
+		seenSort := false
+		for _, h := range tr {
+			if h.Target == 0 {
+				seenSort = true
+			}
+			if h.Target == 1 && !seenSort {
+				ok = false
+			}
+		}
+	}
+	zid := ""
+	for _, call := range fn.CallsTo(false, "ring", "NewSpreadMinimizingTokenGeneratorForInstanceAndZoneID") {
+		if len(call.Expr.Args) >= 3 {
+			zid = fn.Canon(call.Expr.Args[2])
+		}
+	}
+	c.Check(ok && ex.May[1] && strings.HasPrefix(zid, "findZoneID(") && strings.HasSuffix(zid, "#0"), "R5", "func=NewSpreadMinimizingTokenGenerator", finds[0].Expr.Pos(),
+		fmt.Sprintf("findZoneID searches %s, which is sorted in place on every path where it is not already sorted (IsSorted tested on it: %v); the generator is built with that index (%s): %d paths", zobj.Name(), checked, zid, ex.Paths), ex.Paths)
 }
